@@ -142,12 +142,16 @@ def extract(root=None, cfg="dev", log=None):
         return out, meta
 
 
-def _prune(facts_root, keep, maxn=6):
+def _prune(facts_root, keep, maxn=24, min_age_s=1200):
+    """drop the oldest cached fact sets beyond `maxn`, but never one younger than `min_age_s`: several analyses of scratch
+    trees may run side by side (seed matrix, thorough-tier audit) and must not evict each other's facts"""
     try:
+        now = time.time()
         ds = [d for d in os.listdir(facts_root) if d != keep]
         ds.sort(key=lambda d: os.path.getmtime(os.path.join(facts_root, d)))
         for d in ds[:-maxn] if len(ds) > maxn else []:
-            shutil.rmtree(os.path.join(facts_root, d), ignore_errors=True)
+            if now - os.path.getmtime(os.path.join(facts_root, d)) >= min_age_s:
+                shutil.rmtree(os.path.join(facts_root, d), ignore_errors=True)
     except OSError:
         pass
 
